@@ -22,6 +22,8 @@ const (
 	Overrun   = "overrun" // wait for ctx.Done(), then return ok (late)
 	// WrongTypeErr returns a response of the wrong type together with a retryable error.
 	WrongTypeErr = "wrongtype_err"
+	// WrongPtr returns the response with the wrong pointer-ness (*Resp for a plugin declaring Resp and vice versa).
+	WrongPtr = "wrongtype_ptr"
 )
 
 // Step is the script of one invocation.
@@ -282,6 +284,11 @@ func (p *Plugin) Execute(ctx wctx.Context, req any) (any, *plugins.Error) {
 		return WrongResp{Junk: tok}, nil
 	case WrongTypeErr:
 		return WrongResp{Junk: tok}, &plugins.Error{Code: 7, Message: "T:" + tok, Permanent: false}
+	case WrongPtr:
+		if p.Pointer {
+			return Resp{Tok: tok}, nil
+		}
+		return &Resp{Tok: tok}, nil
 	}
 	return nil, &plugins.Error{Message: "bad script outcome " + st.Out, Permanent: true}
 }
